@@ -81,7 +81,11 @@ def gen_ops(ctx):
             for c in s.combs:
                 c.tag = rng.randrange(1, 1 << 32)
         r = rng.random()
-        if r < 0.5:
+        if i % 3 == 0 and r < 0.6:   # a bit that means something only two or more type levels below the edited mask
+            k = rng.choice(["bit-reuse-deep", "bit-reuse-targ"])
+            new = L.unsafe_edit(rng, s, k)
+            k = "unsafe:" + k
+        elif r < 0.5:
             new, ks = L.safe_edits(rng, s, rng.randrange(1, 5), strict_masks=True)
             k = ("safe:" + ks[0] if len(set(ks)) == 1 else f"safe:mixed-seq{len(ks)}") if ks else None
         elif r < 0.6:
